@@ -365,10 +365,21 @@ def file_t2data(ctx, rng, v, i):
     dat.indom = {'rock1': list(dom_vals)}
     case['absent'] = {'incon': list(inc_vals), 'indom': list(dom_vals)}
     fn = os.path.join(ctx.tmp, 'c02_%d.dat' % i)
+    # every third group of cases through the extra-precision auxiliary file (AUTOUGH2): its records are 105-115 columns
+    # wide, the values beyond column 80 must come back like the others
+    xp = (i // 12) % 3
+    case['extra_precision'] = ['no', 'echoed', 'only-in-auxiliary-file'][xp]
+    ctx.see('file_extra_precision', case['extra_precision'])
+    fmt = '%15.8e' if xp else '%10.4e'
+    width = 15 if xp else 10
     ctx.evaluated()
     ctx.case(case, nontrivial=True)
     try:
-        dat.write(fn)
+        if xp:
+            dat.type = 'AUTOUGH2'
+            dat.write(fn, extra_precision=True, echo_extra_precision=(xp == 1))
+        else:
+            dat.write(fn)
     except Exception as e:
         ctx.see('file_outcome', 't2data-write-raised:%s' % type(e).__name__)
         if len('%10.4e' % v) <= 10:
@@ -382,7 +393,7 @@ def file_t2data(ctx, rng, v, i):
             return
 
         def chk(name, wrote, read, focus):
-            exact = float('%10.4e' % wrote) if len('%10.4e' % wrote) <= 10 else None
+            exact = float(fmt % wrote) if len(fmt % wrote) <= width else None
             if (exact is not None and read != exact) or (exact is None and not close_to(read, wrote)):
                 ctx.violation('file:t2data-value' if focus else 'file:t2data-neighbour-corrupted',
                               '%s wrote %r read %r' % (name, wrote, read), case)
@@ -393,6 +404,13 @@ def file_t2data(ctx, rng, v, i):
         chk('conductivity', rt.conductivity, r2.conductivity, slot == 2)
         chk('specific_heat', rt.specific_heat, r2.specific_heat, False)
         chk('volume', dat.grid.blocklist[0].volume, back.grid.blocklist[0].volume, slot == 3)
+        for k, (w, r) in enumerate(zip([1., 2., -3.], back.grid.blocklist[0].centre if back.grid.blocklist[0].centre is not None else [None] * 3)):
+            chk('centre[%d]' % k, w, r, False)
+        con = back.grid.connectionlist[0]
+        chk('connection area', 100., con.area, False)
+        chk('connection dircos', -1.0, con.dircos, False)
+        chk('connection distance 2', 5., con.distance[1], False)
+        ctx.count('values_beyond_column_80_read' if xp else 'values_within_column_80_read', 5)
         if back.grid.blocklist[0].rocktype.name != 'rock1':
             ctx.violation('file:t2data-neighbour-corrupted', 'block rock type read as %r' % back.grid.blocklist[0].rocktype.name, case)
 
